@@ -268,6 +268,13 @@ func (r *funcRun) fromVal(st *State, x Term, t types.Type) (Value, Term) {
 		if types.Identical(t, types.Typ[types.String]) {
 			return mk(SStr, "(vstr %s)", x.S), mk(SBool, "((_ is VStr) %s)", x.S)
 		}
+		// a named string type (json.Number ...): tagged value whose payload stands for the string
+		{
+			sv := st.freshConst("nstr", SStr)
+			ok := mk(SBool, "(and ((_ is VOther) %s) (= (vtag %s) %s))", x.S, x.S, typeTag(t).S)
+			st.assume(Imp(ok, mk(SBool, "(= (strpay %s) (vpay %s))", sv.S, x.S)))
+			return sv, ok
+		}
 	case SF64:
 		if types.Identical(t, types.Typ[types.Float64]) {
 			return mk(SF64, "(vfloat %s)", x.S), mk(SBool, "((_ is VFloat) %s)", x.S)
